@@ -38,7 +38,7 @@ man = {
         {'name': 'driver', 'path': 'check + lib/', 'serves_properties': sorted(PROPS), 'kind_free_text': 'python orchestration: build, shard, crash isolation, evidence, known findings'},
     ],
     'checks': checks,
-    'notes': 'All checks rebuild the crate from /repo through a cargo path dependency. Exit 0 held / 1 VIOLATION / 2 machinery failure. Known findings: known_findings.jsonl (six genuine defects, all repaired by 'fix:' commits in /repo: 583e954, 9d41e6c, 0468555, 56d4bb7; 'fixed' entries suppress nothing). Seeded property-breaking changes: seeded/ (RESULTS.md); property-preserving changes used to look for false alarms: benign/ (RESULTS.md).',
+    'notes': 'All checks rebuild the crate from /repo through a cargo path dependency. Exit 0 held / 1 VIOLATION / 2 machinery failure. Known findings: known_findings.jsonl (six genuine defects, all repaired by fix: commits in /repo: 583e954, 9d41e6c, 0468555, 56d4bb7; entries with status fixed suppress nothing). Seeded property-breaking changes: seeded/ (RESULTS.md); property-preserving changes used to look for false alarms: benign/ (RESULTS.md).',
     'not_applicable': na,
 }
 json.dump(man, open(os.path.join(root, 'MANIFEST.json'), 'w'), indent=1)
